@@ -40,7 +40,7 @@ ASSUMPTIONS = [
 ]
 BUDGET = {
     "quick": dict(cases=330, shards=4, timeout=600),
-    "thorough": dict(cases=1200, shards=16, timeout=3000),
+    "thorough": dict(cases=3000, shards=16, timeout=3000),
 }
 CLASSES = [
     "wellformed", "single_fixable", "single_unfixable", "pair_fixable_first", "pair_fixable_last",
